@@ -1,3 +1,6 @@
+#[cfg(frozenlib_derive_ex_verif)]
+use crate::verif_hooks::HashMap;
+#[cfg(not(frozenlib_derive_ex_verif))]
 use std::collections::HashMap;
 
 use proc_macro2::{Span, TokenStream};
